@@ -177,6 +177,11 @@ func (c *conn) sread() (f *Frag, err error) {
 
 	switch f.Type {
 	case codec.RspMoved, codec.RspAsk:
+		if f.Done {
+			// the request was answered already (timeout, local error reply): a late redirect is
+			// discarded below like any other late reply, its request object may be in use again
+			break
+		}
 		logging.Warnf("[%dm|%df][%dc|%ds] got res: %s", f.MsgId(), f.Id, f.OwnerFd(), c.fd, f.RspBodyString())
 		return f, codec.MovedOrAsk
 	}
